@@ -196,7 +196,7 @@ Definition string_only_class (n : node) : enc_out :=
    flushes, so a sequence (csv/tsv) resp. a map (xml) produces no bytes *)
 Definition drop_when_nul (complete : bool) (fid : N) (n : node) : bool :=
   if ((fid =? id_CSVFormat) || (fid =? id_TSVFormat)) && is_seq n && negb (match n with NSeq [] => true | _ => false end) then false
-  else if (fid =? id_XMLFormat) && is_map n then false
+  else if (fid =? id_XMLFormat) && is_map n && negb (match n with NMap [] => true | _ => false end) then false
   else complete.
 
 Definition enc_class (fid : N) (nul : bool) (n : node) : enc_out :=
